@@ -195,6 +195,9 @@ func (ex *Exec) harnessPrim(st *State, fn *ssa.Function, args []Value, in *ssa.C
 		setRes(st, in, Ite(args[0].(*Term), args[1].(*Term), args[2].(*Term)))
 	case "vLiveContext":
 		setRes(st, in, IfaceV{T: in.Type(), V: OpaqueV{"ctxlive", 0}})
+	case "vCipherPos":
+		// ghost: the number of keystream bytes an rc4.Cipher has produced so far
+		setRes(st, in, st.heap[args[0].(PtrV).Obj].Val.(CipherV).Pos)
 	case "vTickers":
 		st.tickMask, st.tickBudget, st.tickSeq = int(args[0].(*Term).Val), int(args[1].(*Term).Val), 0
 	case "vUnsafeClass":
@@ -316,6 +319,39 @@ func stBound(st *State, in *ssa.Call) bool {
 	}
 	_, ok := st.top().env[in]
 	return ok
+}
+
+// caseMap: strings.ToLower / ToUpper of a bounded symbolic string: byte-wise ASCII mapping on the
+// path where every byte is ASCII; on the other path (some byte >= 0x80: Unicode case mapping, the
+// length may change) the result is an arbitrary string and the path is imprecise.
+func (ex *Exec) caseMap(st *State, s StringV, in *ssa.Call, upper bool) bool {
+	if !s.Sym {
+		if upper {
+			setRes(st, in, StringV{S: strings.ToUpper(s.S)})
+		} else {
+			setRes(st, in, StringV{S: strings.ToLower(s.S)})
+		}
+		return true
+	}
+	ascii := True
+	arr := AConst(8, 0)
+	lo, hi, d := uint64('A'), uint64('Z'), uint64(32)
+	if upper {
+		lo, hi, d = 'a', 'z', 0x100-32
+	}
+	for i := 0; i < s.Max; i++ {
+		b := Select(s.Arr, Const(64, uint64(i)))
+		ascii = And(ascii, Or(Not(Ult(Const(64, uint64(i)), s.Len)), Ult(b, Const(8, 0x80))))
+		arr = AStore(arr, Const(64, uint64(i)), Ite(And(Ule(Const(8, lo), b), Ule(b, Const(8, hi))), Add(b, Const(8, d)), b))
+	}
+	o := st.clone()
+	o.pc = append(o.pc, Not(ascii))
+	o.imprecise = true
+	o.top().env[in] = ex.freshValue(o, in.Type(), "casemap", 0)
+	ex.work = append(ex.work, o)
+	st.pc = append(st.pc, ascii)
+	setRes(st, in, StringV{Sym: true, Arr: arr, Len: s.Len, Max: s.Max, U: s.U})
+	return true
 }
 
 // cleanString: a fresh bounded string whose content is not tracked and whose unsafe predicate is u;
@@ -1060,6 +1096,12 @@ func init() {
 			}
 			setRes(st, in, ex.cleanString(st, "replacer", u))
 			return true
+		},
+		"strings.ToLower": func(ex *Exec, st *State, args []Value, in *ssa.Call, pos token.Pos) bool {
+			return ex.caseMap(st, args[0].(StringV), in, false)
+		},
+		"strings.ToUpper": func(ex *Exec, st *State, args []Value, in *ssa.Call, pos token.Pos) bool {
+			return ex.caseMap(st, args[0].(StringV), in, true)
 		},
 		"strings.HasPrefix": func(ex *Exec, st *State, args []Value, in *ssa.Call, pos token.Pos) bool {
 			s, p := args[0].(StringV), args[1].(StringV)
